@@ -163,6 +163,8 @@ def r_fs(m, sctext=None):
         return '-with-pruned %s %s' % (r_fm(m['fm'], True), r_fs(m['m']))
     if op == 'not':
         return '! ' + r_fs(m['a'])
+    if op in ('and', 'or'):
+        return '( %s %s %s )' % (r_fs(m['a']), '&&' if op == 'and' else '||', r_fs(m['b']))
     if op == 'const':
         return 'constant %s' % ('true' if m['b'] else 'false')
     if op == 'matches':
